@@ -72,6 +72,29 @@ CLAIMED = {
         technique='abstract interpretation into rewrite templates + '
                   'structural induction; template validity by normal form '
                   'or bounded model enumeration of the extracted terms'),
+    'C15': dict(
+        partial=True,
+        text='(1) get_fair_states is summarised by abstract interpretation '
+             'as a closed term over SCC/reversal/reachability and compared '
+             'with "states from which a path visits every set of F '
+             'infinitely often" on every total structure with <=3 states '
+             'and every F with <=2 sets; (2) every fair rewriter '
+             '(get_equivalent_non_fair_formula, 44 generic instances) '
+             'returns a formula (constructor arity/sort summaries) and (4) '
+             'its extracted rule agrees with the Clarke-Grumberg-Peled fair '
+             'semantics on all small (K,F); (3) alphabet typestate of the '
+             'formula handed to the LTL tableau under fairness; (5) F=None '
+             'runs no fairness code, F given labels a clone. Seven genuine '
+             'defects are listed as known findings (inverted fair-SCC '
+             'predicate; inexact fair EG/AF/AU/ER and CTL*/LTL reductions).',
+        ref='3-C15',
+        note='trusted: CGP fair semantics as implemented in pmcv/oracle.py '
+             '(Sem); graph primitives as documented; Bool leaf rule not '
+             'armed; exactness of fair answers beyond these clauses is not '
+             'decided',
+        technique='abstract interpretation into graph-algebra summaries and '
+                  'fair rewrite templates + bounded validity of the '
+                  'extracted terms; alphabet typestate'),
 }
 
 NOT_YET = {}
